@@ -26,7 +26,7 @@ from .core import Relation, err_kind
 
 PROP = "C06"
 CLAIMED = False
-COQ_MODULES = ["C06_Check", "C06_Proofs"]
+COQ_MODULES = ["C06_Check", "C06_Proofs", "C06_Proofs2", "C06_Proofs3", "C06_Proofs4", "C06_Proofs5"]
 PROPERTY_MODULE = "C06_Property"
 ALLOWED_AXIOMS = []
 RULE = (
@@ -566,7 +566,7 @@ class Header(_Base):
     coq_check = "check_header_rel"
     coq_case_type = "hcase"
     coq_model = "model_header"
-    budget = {"quick": 420, "thorough": 6000}
+    budget = {"quick": 420, "thorough": 4000}
 
     def generate(self, rng, n, tier):
         ver = current_version()
@@ -682,7 +682,7 @@ class Read(_Base):
     coq_check = "check_read_rel"
     coq_case_type = "rcase"
     coq_model = "model_read"
-    budget = {"quick": 420, "thorough": 8000}
+    budget = {"quick": 420, "thorough": 5000}
 
     def generate(self, rng, n, tier):
         ver = current_version()
@@ -854,7 +854,7 @@ class Roundtrip(_Base):
     coq_check = "check_roundtrip_rel"
     coq_case_type = "wcase"
     coq_model = "model_roundtrip"
-    budget = {"quick": 300, "thorough": 6000}
+    budget = {"quick": 300, "thorough": 3000}
 
     def generate(self, rng, n, tier):
         ver = current_version()
@@ -1002,19 +1002,25 @@ class Roundtrip(_Base):
 RELATIONS = [Header(), Read(), Roundtrip()]
 
 LEVEL_TEXT = (
-    "Coq theorems (all inputs, no size bound) about a Gallina model of the .hap reader and writer: comment lines that "
-    "are not header declarations never change check_header or read wherever they are inserted; check_version's "
-    "decision is exactly 'major differs or minor newer'; every requested extra field is read from the column its name "
-    "has in the order line (or declaration order), unrequested columns are skipped without shifting others; "
-    "undeclared-but-required extras are reported; write->read->write is the identity on the model under codec "
-    "round-trip hypotheses. The model is tied to /repo on every run by evaluating, inside Coq, model-vs-implementation "
-    "agreement and the property's finite checkers on generated header-line sets, generated files read through "
-    "dynamically built Haplotype/Variant/Repeat subclasses, and generated collections written, read back and written again."
+    "Coq theorems (all inputs, no size bound) about a Gallina model of the .hap reader and writer: '#' lines that are "
+    "not header declarations never change check_header or read wherever and however often they are inserted; "
+    "check_version reports exactly when the major differs or the minor is newer, and check_header/read carry that "
+    "report (also for a file without record lines); every requested extra field is read from the column its name has "
+    "in the order line (or declaration order), unrequested columns are skipped without shifting others; "
+    "expected-but-undeclared extras are reported; a record line written by to_hap_spec is read back by from_hap_spec "
+    "to the same attribute values under the codec contract, and what to_str writes depends only on keys, kinds, "
+    "structure and formatted texts. The model is tied to /repo on every run by evaluating, inside Coq, "
+    "model-vs-implementation agreement and the property's finite checkers on generated header-line sets, generated "
+    "files read through dynamically built Haplotype/Variant/Repeat subclasses (with and without inserted comment "
+    "lines), and generated collections written, read back and written again."
 )
 LEVEL_NOTE = (
-    "Trusted: Coq kernel/vm_compute; the hand-written model (validated only differentially); tokenisation of record "
-    "lines and the int()/float()/format() results of each field are computed by the harness and are inputs of the "
-    "model (codec contracts are Section hypotheses); log records are classified by their first words. The tabix "
-    "(indexed, region/subset) branch of __iter__ is not modelled (C08/C11 territory)."
+    "Partial: the file-level round trip (read(to_str d) = d, write-read-write byte identity) is proved per record "
+    "line + reduced to the codec contract + one worked instance by computation; for whole files it is validated by the "
+    "roundtrip relation on every run, not by a general theorem. Trusted: Coq kernel/vm_compute; the hand-written model "
+    "(validated only differentially); tokenisation of record lines and the int()/float()/format() results of each "
+    "field are computed by the harness and are inputs of the model (codec contracts); log records are classified by "
+    "their first words; field texts are ASCII without tab/newline/carriage return. The tabix (indexed, region/subset) "
+    "branch of __iter__ is not modelled (C08/C11 territory)."
 )
 TECHNIQUE = "Coq proof by induction on line lists / header folds + vm_compute-evaluated correspondence against the implementation"
